@@ -54,7 +54,32 @@ Lemma compile_NTernary f c t e : compile (S f) (NTernary c t e) =
     ret (a ++ I [opPopJumpForwardIfFalse; (nlen tc + 4)%N] ++ tc ++ I [opJumpForward; (nlen ec + 2)%N] ++ ec)))).
 Proof. reflexivity. Qed.
 
+Lemma compile_NIdent f name : compile (S f) (NIdent name) = bind (resolve_cur name) (fun rs => ret (load_res rs)).
+Proof. reflexivity. Qed.
+
 Arguments compile : simpl never.
+
+(* ------------------------------------------------------------------ variables: what the root table knows *)
+Definition sym_of (names : list (list N)) (i : nat) : symbol :=
+  {| sy_name := nth i names []; sy_index := N.of_nat i; sy_const := false |}.
+
+(* table 0 is the root table (no parent) and maps the first n variable names to the global slots 0 .. n-1 *)
+Definition tabs_ok (names : list (list N)) (tabs : list table) (n : nat) : Prop :=
+  tb_parent (nth 0 tabs dummy_table) = None /\
+  forall i, i < n -> Compiler.assoc (nth i names []) (tb_byname (nth 0 tabs dummy_table)) = Some (sym_of names i).
+
+Lemma resolve_cur_bound names st w r n i :
+  st_stack st = w :: r -> w_tab w = 0 -> tabs_ok names (st_tabs st) n -> i < n ->
+  resolve_cur (nth i names []) st =
+  inr ({| rs_sym := sym_of names i; rs_scope := Global; rs_depth := 0; rs_free := 0 |}, st).
+Proof.
+  intros Hs Hw [Hp Ha] Hi.
+  unfold resolve_cur, bind, cur. rewrite Hs. unfold resolve, bind, get, get_tab. rewrite Hw.
+  rewrite (Ha i Hi). unfold ret, fuel_of. cbn [is_global]. rewrite Hp. reflexivity.
+Qed.
+
+Lemma add_consts_tabs st ks : st_tabs (add_consts st ks) = st_tabs st.
+Proof. unfold add_consts. destruct (st_stack st); reflexivity. Qed.
 
 Lemma constant_spec k st w r : st_stack st = w :: r ->
   constant k st = inr (N.of_nat (length (w_consts w)), add_consts st [k]).
@@ -73,54 +98,66 @@ Lemma binop_code_op o : binop_code (op_text o) = Some (I (op_code o)).
 Proof. destruct o; reflexivity. Qed.
 
 (* the compiler emits exactly [cexp], appends exactly its constants, and touches nothing else *)
-Theorem compile_scalar : forall e f st w r,
-  st_stack st = w :: r -> height e <= f ->
-  compile f (embed e) st =
+Theorem compile_scalar : forall names n e f st w r,
+  st_stack st = w :: r -> w_tab w = 0 -> tabs_ok names (st_tabs st) n -> wf n e = true -> height e <= f ->
+  compile f (embed names e) st =
   inr (I (fst (cexp (length (w_consts w)) e)), add_consts st (snd (cexp (length (w_consts w)) e))).
 Proof.
-  induction e as [z|b| |a IHa|a IHa|o a IHa b IHb|a IHa b IHb|a IHa b IHb|c IHc t IHt e IHe];
-    intros f st w r Hst Hf; cbn [height] in Hf; (destruct f as [|f]; [lia|]); cbn [embed].
+  intros names n.
+  induction e as [z|b| |i|a IHa|a IHa|o a IHa b IHb|a IHa b IHb|a IHa b IHb|c IHc t IHt e IHe];
+    intros f st w r Hst Hw Ht Hwf Hf; cbn [height] in Hf; (destruct f as [|f]; [lia|]); cbn [embed]; cbn [wf] in Hwf.
   - rewrite compile_NInt. unfold bind. rewrite (constant_spec _ _ _ _ Hst). reflexivity.
   - rewrite compile_NBool. cbn. rewrite (add_consts_nil _ _ _ Hst). reflexivity.
   - rewrite compile_NNil. cbn. rewrite (add_consts_nil _ _ _ Hst). reflexivity.
-  - rewrite compile_NPrefix. unfold bind. rewrite (IHa f st w r Hst) by lia.
+  - apply Nat.ltb_lt in Hwf. rewrite compile_NIdent. unfold bind.
+    rewrite (resolve_cur_bound names st w r n i Hst Hw Ht Hwf). cbn. rewrite (add_consts_nil _ _ _ Hst). reflexivity.
+  - rewrite compile_NPrefix. unfold bind. rewrite (IHa f st w r Hst Hw Ht Hwf) by lia.
     cbn [cexp]. destruct (cexp (length (w_consts w)) a) as [ca ka]. cbn. rewrite I_app. reflexivity.
-  - rewrite compile_NPrefix. unfold bind. rewrite (IHa f st w r Hst) by lia.
+  - rewrite compile_NPrefix. unfold bind. rewrite (IHa f st w r Hst Hw Ht Hwf) by lia.
     cbn [cexp]. destruct (cexp (length (w_consts w)) a) as [ca ka]. cbn. rewrite I_app. reflexivity.
-  - rewrite compile_NInfix, op_text_not_logic. unfold bind.
-    rewrite (IHa f st w r Hst) by lia. cbn [cexp].
+  - apply andb_true_iff in Hwf. destruct Hwf as [Hwa Hwb].
+    rewrite compile_NInfix, op_text_not_logic. unfold bind.
+    rewrite (IHa f st w r Hst Hw Ht Hwa) by lia. cbn [cexp].
     destruct (cexp (length (w_consts w)) a) as [ca ka] eqn:Ea. cbn [fst snd].
     pose proof (add_consts_stack st w r ka Hst) as Hst2.
-    rewrite (IHb f _ _ r Hst2) by lia. cbn [w_consts with_consts]. rewrite app_length.
+    assert (Ht2 : tabs_ok names (st_tabs (add_consts st ka)) n) by (rewrite add_consts_tabs; exact Ht).
+    rewrite (IHb f _ _ r Hst2 Hw Ht2 Hwb) by lia. cbn [w_consts with_consts]. rewrite app_length.
     destruct (cexp (length (w_consts w) + length ka) b) as [cb kb] eqn:Eb. cbn [fst snd].
     rewrite binop_code_op. unfold ret. rewrite (add_consts_app _ _ _ _ _ Hst). rewrite !I_app. reflexivity.
-  - rewrite compile_NInfix. change (beq [38;38]%N [38;38]%N || beq [38;38]%N [124;124]%N) with true. cbn iota. unfold bind.
-    rewrite (IHa f st w r Hst) by lia. cbn [cexp].
+  - apply andb_true_iff in Hwf. destruct Hwf as [Hwa Hwb].
+    rewrite compile_NInfix. change (beq [38;38]%N [38;38]%N || beq [38;38]%N [124;124]%N) with true. cbn iota. unfold bind.
+    rewrite (IHa f st w r Hst Hw Ht Hwa) by lia. cbn [cexp].
     destruct (cexp (length (w_consts w)) a) as [ca ka] eqn:Ea. cbn [fst snd].
     pose proof (add_consts_stack st w r ka Hst) as Hst2.
-    rewrite (IHb f _ _ r Hst2) by lia. cbn [w_consts with_consts]. rewrite app_length.
+    assert (Ht2 : tabs_ok names (st_tabs (add_consts st ka)) n) by (rewrite add_consts_tabs; exact Ht).
+    rewrite (IHb f _ _ r Hst2 Hw Ht2 Hwb) by lia. cbn [w_consts with_consts]. rewrite app_length.
     destruct (cexp (length (w_consts w) + length ka) b) as [cb kb] eqn:Eb. cbn [fst snd].
     unfold ret. rewrite (add_consts_app _ _ _ _ _ Hst).
     change (beq [38; 38]%N [38; 38]%N) with true. cbn iota zeta.
     rewrite <- I_app, nlen_I. rewrite !I_app. cbn [I map app]. reflexivity.
-  - rewrite compile_NInfix. change (beq [124;124]%N [38;38]%N || beq [124;124]%N [124;124]%N) with true. cbn iota. unfold bind.
-    rewrite (IHa f st w r Hst) by lia. cbn [cexp].
+  - apply andb_true_iff in Hwf. destruct Hwf as [Hwa Hwb].
+    rewrite compile_NInfix. change (beq [124;124]%N [38;38]%N || beq [124;124]%N [124;124]%N) with true. cbn iota. unfold bind.
+    rewrite (IHa f st w r Hst Hw Ht Hwa) by lia. cbn [cexp].
     destruct (cexp (length (w_consts w)) a) as [ca ka] eqn:Ea. cbn [fst snd].
     pose proof (add_consts_stack st w r ka Hst) as Hst2.
-    rewrite (IHb f _ _ r Hst2) by lia. cbn [w_consts with_consts]. rewrite app_length.
+    assert (Ht2 : tabs_ok names (st_tabs (add_consts st ka)) n) by (rewrite add_consts_tabs; exact Ht).
+    rewrite (IHb f _ _ r Hst2 Hw Ht2 Hwb) by lia. cbn [w_consts with_consts]. rewrite app_length.
     destruct (cexp (length (w_consts w) + length ka) b) as [cb kb] eqn:Eb. cbn [fst snd].
     unfold ret. rewrite (add_consts_app _ _ _ _ _ Hst).
     change (beq [124; 124]%N [38; 38]%N) with false. cbn iota zeta.
     rewrite <- I_app, nlen_I. rewrite !I_app. cbn [I map app]. reflexivity.
-  - rewrite compile_NTernary. unfold bind.
-    rewrite (IHc f st w r Hst) by lia. cbn [cexp].
+  - apply andb_true_iff in Hwf. destruct Hwf as [Hwct Hwe]. apply andb_true_iff in Hwct. destruct Hwct as [Hwc Hwt].
+    rewrite compile_NTernary. unfold bind.
+    rewrite (IHc f st w r Hst Hw Ht Hwc) by lia. cbn [cexp].
     destruct (cexp (length (w_consts w)) c) as [cc kc] eqn:Ec. cbn [fst snd].
     pose proof (add_consts_stack st w r kc Hst) as Hst2.
-    rewrite (IHt f _ _ r Hst2) by lia. cbn [w_consts with_consts]. rewrite app_length.
+    assert (Ht2 : tabs_ok names (st_tabs (add_consts st kc)) n) by (rewrite add_consts_tabs; exact Ht).
+    rewrite (IHt f _ _ r Hst2 Hw Ht2 Hwt) by lia. cbn [w_consts with_consts]. rewrite app_length.
     destruct (cexp (length (w_consts w) + length kc) t) as [ct kt] eqn:Et. cbn [fst snd].
     rewrite (add_consts_app _ _ _ _ _ Hst).
     pose proof (add_consts_stack st w r (kc ++ kt) Hst) as Hst3.
-    rewrite (IHe f _ _ r Hst3) by lia. cbn [w_consts with_consts]. rewrite !app_length, Nat.add_assoc.
+    assert (Ht3 : tabs_ok names (st_tabs (add_consts st (kc ++ kt))) n) by (rewrite add_consts_tabs; exact Ht).
+    rewrite (IHe f _ _ r Hst3 Hw Ht3 Hwe) by lia. cbn [w_consts with_consts]. rewrite !app_length, Nat.add_assoc.
     destruct (cexp (length (w_consts w) + length kc + length kt) e) as [cf kf] eqn:Ef. cbn [fst snd].
     unfold ret. rewrite (add_consts_app _ _ _ _ _ Hst). rewrite <- app_assoc.
     rewrite !nlen_I. rewrite !I_app. cbn [I map app]. reflexivity.
